@@ -4,7 +4,10 @@ use bytes::BytesMut;
 use tokio_util::codec::Decoder;
 
 fn be32(b: &[u8], o: usize) -> usize {
-    (((b[o] as u32) << 24) | ((b[o + 1] as u32) << 16) | ((b[o + 2] as u32) << 8) | (b[o + 3] as u32)) as usize
+    (((b[o] as u32) << 24)
+        | ((b[o + 1] as u32) << 16)
+        | ((b[o + 2] as u32) << 8)
+        | (b[o + 3] as u32)) as usize
 }
 
 fn stub_format(_args: core::fmt::Arguments<'_>) -> String {
@@ -31,12 +34,21 @@ fn rtr_frame_length_contract() {
             kani::cover!(true, "complete frame");
         }
         Ok(None) => {
-            assert!(len < 8 || len < be32(&data, 4), "C03.rtr.more_bytes_only_if_incomplete");
-            assert!(len < 8 || be32(&data, 4) >= 8, "C03.rtr.short_length_field_rejected");
+            assert!(
+                len < 8 || len < be32(&data, 4),
+                "C03.rtr.more_bytes_only_if_incomplete"
+            );
+            assert!(
+                len < 8 || be32(&data, 4) >= 8,
+                "C03.rtr.short_length_field_rejected"
+            );
             kani::cover!(len >= 8, "incomplete body");
         }
         Err(e) => {
-            assert!(len >= 8 && be32(&data, 4) < 8, "C03.rtr.error_only_for_impossible_length");
+            assert!(
+                len >= 8 && be32(&data, 4) < 8,
+                "C03.rtr.error_only_for_impossible_length"
+            );
             core::mem::forget(e);
             kani::cover!(true, "impossible length");
         }
@@ -58,7 +70,10 @@ fn rtr_from_bytes_total() {
     match Message::from_bytes(&data[..len]) {
         Ok((m, n)) => {
             assert!(n == len, "C03.rtr.from_bytes_reports_frame_length");
-            assert!(Message::is_known_type(data[1]), "C03.rtr.only_known_types_decoded");
+            assert!(
+                Message::is_known_type(data[1]),
+                "C03.rtr.only_known_types_decoded"
+            );
             core::mem::forget(m);
             kani::cover!(true, "a PDU is decoded");
         }
@@ -103,9 +118,18 @@ fn rtr_decode_framing() {
         }
         Ok(None) => {
             let rest = src.len();
-            assert!(rest < 8 || rest < be32(&src, 4), "C03.rtr.complete_frame_consumed_or_rejected");
-            assert!(rest < 8 || be32(&src, 4) >= 8, "C03.rtr.short_length_field_rejected");
-            kani::cover!(before >= 8 && rest < before, "unknown PDU skipped, then needs more bytes");
+            assert!(
+                rest < 8 || rest < be32(&src, 4),
+                "C03.rtr.complete_frame_consumed_or_rejected"
+            );
+            assert!(
+                rest < 8 || be32(&src, 4) >= 8,
+                "C03.rtr.short_length_field_rejected"
+            );
+            kani::cover!(
+                before >= 8 && rest < before,
+                "unknown PDU skipped, then needs more bytes"
+            );
         }
         Err(e) => {
             core::mem::forget(e);
